@@ -54,6 +54,11 @@ func loopInvariantD(l *loopInfo, v ssa.Value, depth int) bool {
 		return loopInvariantD(l, x.X, depth+1)
 	case *ssa.Field:
 		return loopInvariantD(l, x.X, depth+1)
+	case *ssa.IndexAddr:
+		// element of a local array variable (`table[0]` of `table := b.wSyncTable()`)
+		if _, isArr := x.X.(*ssa.Alloc); isArr {
+			return loopInvariantD(l, x.Index, depth+1)
+		}
 	case *ssa.Call:
 		if b, ok := x.Call.Value.(*ssa.Builtin); ok && (b.Name() == "len" || b.Name() == "cap") {
 			return loopInvariantD(l, x.Call.Args[0], depth+1)
@@ -74,9 +79,18 @@ func loopInvariantD(l *loopInfo, v ssa.Value, depth int) bool {
 // loopMayStore: can any instruction of the loop (or a module function it calls) write the
 // location addr? Locations are compared by struct field (owner+name) or by local cell.
 func loopMayStore(l *loopInfo, addr ssa.Value) bool {
+	baseOf := func(a ssa.Value) ssa.Value {
+		if ia, ok := a.(*ssa.IndexAddr); ok {
+			return ia.X
+		}
+		return a
+	}
 	same := func(a ssa.Value) bool {
 		if a == addr {
 			return true
+		}
+		if _, isEl := addr.(*ssa.IndexAddr); isEl && baseOf(a) == baseOf(addr) {
+			return true // the array variable itself, or one of its elements, is written
 		}
 		fa, ok1 := fieldOf(a)
 		fb, ok2 := fieldOf(addr)
@@ -524,6 +538,10 @@ func (w *World) rankByTest(l *loopInfo, cond ssa.Value, stayTrue bool) (loopClas
 		sx, sy := stepOf(l, lx.phi), stepOf(l, ly.phi)
 		if sx.ok && sy.ok && sx.isK && sy.isK && !sx.neg && sx.konst > 0 && sy.neg && sy.konst > 0 {
 			return loopClass{"T2p", true, "two-pointer loop: left grows, right shrinks, stays while left < right"}, true
+		}
+		// the same with one counter and the mirror index computed: i < A - i, i growing by a positive constant
+		if lx.phi == ly.phi && lx.sign > 0 && ly.sign < 0 && sx.ok && sx.isK && !sx.neg && sx.konst > 0 {
+			return loopClass{"T2p", true, "stays while i < A - i with i growing by a positive constant: the difference shrinks on every iteration"}, true
 		}
 	}
 	var s side
